@@ -20,6 +20,7 @@ Theorem c03_source_shape :
   connection_connection_handle_stmt_close_ok = true /\ connection_connection_handle_ping_ok = true /\
   connection_connection_handle_init_db_ok = true /\ connection_connection_handle_stmt_reset_ok = true /\
   stream_mysqlstream_write_ok = true /\ stream_mysqlstream_reset_seq_ok = true /\
+  constants_default_server_capabilities_ok = true /\ packets_make_column_count_ok = true /\
   types_cap_deprecate_eof_bit = 24.
 Proof. repeat split; reflexivity. Qed.
 
